@@ -11,6 +11,8 @@ import rules_protocol as RP
 import rules_struct as RS
 import rules_hooks as RH
 import rules_contracts as RC
+import rules_entry as RE
+import rules_types as RT
 
 ASSUME_COMMON = [
     "rustc's type checker, MIR construction and drop elaboration (facts are read from the compiler, -Zmir-opt-level=0)",
@@ -33,20 +35,27 @@ STRUCT = {
     "HOOKS-TOKEN": RH.rule_token_hooks,
     "HOOKS-SAVE-REWIND": RH.rule_save_rewind,
     "SUB-INPUT": RH.rule_sub_inputs,
+    "ENTRY": RE.rule_entry,
+    "CLONE-FIELDS": RT.rule_clone_fields,
+    "ONCE": RT.rule_once,
+    "MEMO-KEY": RT.rule_memo_key,
+    "AFFINE": RT.rule_affine,
 }
 
 # "K" = the contract automata that serve this property (spec/contract_map.py)
 PROP_RULES = {
     "C01": ["K", "D:POISON"],
     "C02": ["K", "D:POISON"],
+    "C03": ["ENTRY", "K"],
     "C04": ["MODE-PAIR", "MODE-PURE", "K", "D:POISON"],
-    "C05": ["D:POISON", "D:KEEP", "D:LIFO", "HOOKS-SAVE-REWIND", "HOOKS-WRITERS", "K"],
+    "C05": ["D:POISON", "D:KEEP", "D:LIFO", "HOOKS-SAVE-REWIND", "HOOKS-WRITERS", "MODE-PURE", "K"],
+    "C07": ["K"],
     "C06": ["D:ALT-LINEAR", "D:ALT-POS", "D:PFAIL", "K"],
     "C08": ["K", "D:POISON", "D:ALT-LINEAR", "D:PFAIL"],
-    "C09": ["K", "D:POISON", "RECURSE"],
-    "C11": ["K", "D:ALT-LINEAR", "D:ALT-POS", "D:PFAIL"],
-    "C12": ["RECURSE", "K"],
-    "C13": ["FREEZE", "STATICS", "OWN-STATE", "K"],
+    "C09": ["K", "D:POISON", "RECURSE", "AFFINE"],
+    "C11": ["K", "D:ALT-LINEAR", "D:ALT-POS", "D:PFAIL", "MEMO-KEY"],
+    "C12": ["RECURSE", "ONCE", "CLONE-FIELDS", "K"],
+    "C13": ["FREEZE", "STATICS", "OWN-STATE", "CLONE-FIELDS", "K"],
     "C14": ["K"],
     "C15": ["K", "SUB-INPUT"],
     "C16": ["K", "SUB-INPUT", "D:ALT-LINEAR", "D:PFAIL"],
